@@ -183,25 +183,13 @@ fn one_literal(cx: &mut Ctx, n: u16, lit: &str, k: usize) {
             acc.brief(), oracle.map(|x| x.to_dec()).unwrap_or("nothing (must be rejected)".into())), "program": text, "signature": sig}));
         return;
     }
-    // (b) value parsing against the Rust constructors. Only texts that are one literal token
-    // are judged: the property is about literals, and `Value::parse_from_str` reads a prefix
-    // (`0xg` is read as `0`; noted in DESIGN.md as an observation outside the properties).
+    // (b) value parsing against the Rust constructors; a text that is no literal must be rejected
+    // (the string parsers consume their whole input since the fix recorded as F11)
     let sty = to_sim_ty(&ty);
     let parsed = call(|| Value::parse_from_str(lit, &sty));
-    let is_token = {
-        let all = |s: &str, f: &dyn Fn(char) -> bool| !s.is_empty() && s.chars().all(|c| f(c) || c == '_');
-        if let Some(h) = lit.strip_prefix("0x") {
-            all(h, &|c| c.is_ascii_hexdigit())
-        } else if let Some(b) = lit.strip_prefix("0b") {
-            all(b, &|c| c == '0' || c == '1')
-        } else {
-            all(lit, &|c| c.is_ascii_digit())
-        }
-    };
     let ok = match (&parsed, &oracle) {
         (Outcome::Ok(v), Some(x)) => *v == constructor_value(n, x),
         (Outcome::Err(_), None) => true,
-        (Outcome::Ok(_), None) if !is_token => true,
         _ => false,
     };
     if !ok {
